@@ -61,6 +61,243 @@ var _ = reserr.ErrAccessDenied
 //@   safety[C15]
 //@   loop 1 invariant forall j int :: 0 <= j && j < rangeidx1 ==> path[j] != rid
 
+// --- connection / subscription bookkeeping (C07, C08, C04, C05) -----------------
+
+// In the gateway the only ConnSubscriber is *wsConn (HTTP requests use a temporary wsConn).
+//@ devirtualize ConnSubscriber => *wsConn
+
+// Set at construction only (checked: no assignment outside composite literals).
+//@ immutable Subscription.c, Subscription.rid, Subscription.resourceName, Subscription.resourceQuery
+//@ immutable wsConn.cid, wsConn.serv, wsConn.request
+
+// Callbacks stored in these fields are invoked exactly once by the code that consumes the
+// field (access verdict, ready countdown, connection worker) unless the subscription or the
+// connection is disposed first (see known finding F4).
+//@ pending readyCallback.cb, Subscription.accessCallbacks, wsConn.queue
+
+// Counters never go negative (data-structure invariant, assumed on entry of the accounting functions).
+//@ define predCountsOK() bool = forall x *Subscription :: x.direct >= 0 && x.indirect >= 0 && x.indirectsent >= 0
+
+// The collector is not verified (two-pass recursive closure algorithm over an arbitrary graph).
+// Trusted: it never changes a direct count, and does nothing when the subscription is still
+// directly subscribed.
+//@ func (*wsConn).tryDelete
+//@   trusted
+//@   ensures forall x *Subscription :: x.direct == old(x.direct)
+//@   assigns Subscription.state, Subscription.indirectsent, Subscription.indirect, Subscription.readyCallbacks,
+//@       Subscription.eventQueue, Subscription.throttle, Subscription.resourceSub, Subscription.refs, elems(c.subs), pkgstate(rescache)
+
+//@ func (*wsConn).addCount
+//@   requires s != nil
+//@   ensures[C08] direct && old(s.direct) >= 256 ==> result != nil && s.direct == old(s.direct)
+//@   ensures[C08] direct && old(s.direct) < 256 ==> result == nil && s.direct == old(s.direct) + 1
+//@   ensures[C08] !direct ==> result == nil && s.direct == old(s.direct) && s.indirect == old(s.indirect) + 1
+//@   assigns s.direct, s.indirect
+//@   safety[C15]
+
+//@ func (*wsConn).removeCount
+//@   requires s != nil
+//@   ensures[C08] old(s.direct + s.indirect + s.indirectsent) == 0 ==> s.direct == old(s.direct)
+//@   ensures[C08] old(s.direct + s.indirect + s.indirectsent) != 0 && direct ==> s.direct == old(s.direct) - count
+//@   ensures[C08] !direct ==> s.direct == old(s.direct)
+//@   ensures[C08] forall x *Subscription :: x != s ==> x.direct == old(x.direct)
+//@   safety[C15]
+
+// UnsubscribeByRID succeeds exactly when the connection is live, the rid is subscribed and its
+// direct count covers the request; then the count drops by exactly that number, otherwise
+// nothing changes.
+//@ func (*wsConn).UnsubscribeByRID
+//@   requires c != nil && count > 0 && (forall r string :: has(c.subs, r) ==> c.subs[r] != nil) && predCountsOK()
+//@   ensures[C08] result == (!old(c.disposing) && old(has(c.subs, rid)) && old(c.subs[rid].direct) >= count)
+//@   ensures[C08] result ==> old(c.subs[rid]).direct == old(c.subs[rid].direct) - count
+//@   ensures[C08] !result ==> (forall x *Subscription :: x.direct == old(x.direct))
+//@   safety[C15]
+
+//@ func (*wsConn).UnsubscribeResource
+//@   requires c != nil && c.serv != nil && count > 0 && (forall r string :: has(c.subs, r) ==> c.subs[r] != nil) && predCountsOK()
+//@   resolves[C07] cb exactly-once
+//@   callback cb requires[C08] ok == (!old(c.disposing) && old(has(c.subs, rid)) && old(c.subs[rid].direct) >= count)
+//@   safety[C15]
+
+// --- request handlers: exactly one response (C07), access gating (C04, C05), accounting (C08) ---
+
+//@ immutable Service.cache, Service.mq
+
+//@ define predConnOK(c *wsConn) bool = c != nil && c.serv != nil && c.serv.cache != nil
+
+// Well-formedness of the subscription table and cached verdicts (data-structure invariant).
+//@ define predSubsOK(c *wsConn) bool = (!c.disposing ==> c.subs != nil) && (forall r string :: has(c.subs, r) ==> c.subs[r] != nil && c.subs[r].c == c) && predCountsOK() &&
+//@     (forall x *Subscription :: x.access != nil ==> (x.access.Error != nil || x.access.AccessResult != nil))
+
+// Enqueue refuses work once the connection is disposing; otherwise the function is appended to
+// the worker queue, which runs it exactly once.
+//@ func (*wsConn).Enqueue
+//@   requires c != nil
+//@   ensures[C11] result == !old(c.disposing)
+//@   ensures[C11] old(c.disposing) ==> c.queue == old(c.queue)
+//@   resolves[C07] f if-result
+//@   assigns c.queue, elems(c.queue)
+//@   safety[C15]
+
+//@ func (*wsConn).Access
+//@   requires predConnOK(c) && s != nil
+//@   resolves[C07] cb exactly-once
+//@   callback cb requires[C04] arg0 != nil && (arg0.Error != nil || arg0.AccessResult != nil)
+//@   assert[C05,C10] c.serv.cache.Access#1: arg0 == s && arg1 == c.token && !arg2
+//@ closure (*wsConn).Access#1
+//@   resolves[C07] cb exactly-once
+
+//@ func (*Subscription).loadAccess
+//@   requires s != nil && s.c != nil && predConnOK(s.c.(*wsConn))
+//@   assumes s.access != nil ==> (s.access.Error != nil || s.access.AccessResult != nil)
+//@   requires t != nil ==> rescache.predThrottleInv(t)
+//@   resolves[C07] cb exactly-once
+//@   callback cb requires[C04] arg0 != nil && (arg0.Error != nil || arg0.AccessResult != nil)
+//@   safety[C15]
+
+//@ func (*Subscription).CanGet
+//@   requires s != nil && s.c != nil && predConnOK(s.c.(*wsConn))
+//@   resolves[C07] cb exactly-once
+//@   callback cb requires[C04] (err == nil) == (a.Error == nil && a.Get)
+//@   callback cb requires err != nil ==> reserr.predErrOK(err)
+//@ closure (*Subscription).CanGet#1
+//@   resolves[C07] cb exactly-once
+//@   safety[C15]
+
+//@ func (*Subscription).CanCall
+//@   requires s != nil && s.c != nil && predConnOK(s.c.(*wsConn))
+//@   resolves[C07] cb exactly-once
+//@   callback cb requires err != nil ==> reserr.predErrOK(err)
+//@   callback cb requires[C05] (err == nil) == (a.Error == nil && (a.Call == "*" || rescache.predListHas(a.Call, action)))
+//@ closure (*Subscription).CanCall#1
+//@   resolves[C07] cb exactly-once
+//@   safety[C15]
+
+//@ func (*Subscription).collectRefs
+//@   requires s != nil && rcb != nil
+
+//@ func (*Subscription).OnReady
+//@   requires s != nil
+//@   resolves[C07] cb exactly-once
+//@   safety[C15]
+
+// Resource data is assembled by the (recursive) populate routines, which are not under contract.
+//@ func (*Subscription).GetRPCResources
+//@   trusted
+//@   requires s != nil
+//@ func (*Subscription).ReleaseRPCResources
+//@   trusted
+//@   requires s != nil
+
+// a subscription created for a connection keeps pointing at it
+//@ define predSubOf(s *Subscription, c *wsConn) bool = s != nil && s.c == c
+
+//@ define predCounts(s *Subscription) int = s.direct + s.indirect + s.indirectsent
+
+// get: exactly one response; data is released only under a get grant; a failed get leaves no
+// direct subscription behind.
+//@ func (*wsConn).GetResource
+//@   requires predConnOK(c)
+//@   assumes predSubsOK(c)
+//@   resolves[C07] cb exactly-once
+//@   safety[C15]
+//@ closure (*wsConn).GetResource#1
+//@   requires predConnOK(c) && predSubOf(sub, c)
+//@   resolves[C07] cb exactly-once
+//@   ensures[C08] err != nil && !old(c.disposing) && old(predCounts(sub)) != 0 ==> sub.direct == old(sub.direct) - 1
+//@   safety[C15]
+//@ closure (*wsConn).GetResource#2
+//@   requires[C04] predConnOK(c) && predSubOf(sub, c) && err == nil
+//@   resolves[C07] cb exactly-once
+//@   ensures[C08] old(sub.Error()) != nil && !old(c.disposing) && old(predCounts(sub)) != 0 ==> sub.direct == old(sub.direct) - 1
+//@   safety[C15]
+
+//@ func (*wsConn).SubscribeResource
+//@   requires predConnOK(c)
+//@   assumes predSubsOK(c)
+//@   resolves[C07] cb exactly-once
+//@   safety[C15]
+//@ closure (*wsConn).SubscribeResource#1
+//@   requires predConnOK(c) && predSubOf(sub, c)
+//@   resolves[C07] cb exactly-once
+//@   ensures[C08] err != nil && !old(c.disposing) && old(predCounts(sub)) != 0 ==> sub.direct == old(sub.direct) - 1
+//@   safety[C15]
+//@ closure (*wsConn).SubscribeResource#2
+//@   requires[C04] predConnOK(c) && predSubOf(sub, c) && err == nil
+//@   resolves[C07] cb exactly-once
+//@   ensures[C08] old(sub.Error()) != nil && !old(c.disposing) && old(predCounts(sub)) != 0 ==> sub.direct == old(sub.direct) - 1
+//@   safety[C15]
+
+//@ func (*wsConn).handleResourceResult
+//@   requires predConnOK(c)
+//@   assumes predSubsOK(c)
+//@   resolves[C07] cb exactly-once
+//@   safety[C15]
+//@ closure (*wsConn).handleResourceResult#1
+//@   requires predConnOK(c) && predSubOf(sub, c)
+//@   resolves[C07] cb exactly-once
+//@   ensures[C08] err != nil && !old(c.disposing) && old(predCounts(sub)) != 0 ==> sub.direct == old(sub.direct) - 1
+//@   safety[C15]
+//@ closure (*wsConn).handleResourceResult#2
+//@   requires[C04] predConnOK(c) && predSubOf(sub, c) && err == nil
+//@   resolves[C07] cb exactly-once
+//@   safety[C15]
+
+//@ func (*wsConn).handleCallAuthResponse
+//@   requires predConnOK(c)
+//@   assumes predSubsOK(c)
+//@   resolves[C07] cb exactly-once
+//@   safety[C15]
+
+// call: forwarded to the service only under a call grant for that method, with the
+// connection's own id and current token.
+//@ func (*wsConn).call
+//@   requires predConnOK(c)
+//@   assumes predSubsOK(c)
+//@   resolves[C07] cb exactly-once
+//@   safety[C15]
+//@ closure (*wsConn).call#1
+//@   requires predConnOK(c) && predSubOf(sub, c)
+//@   resolves[C07] cb exactly-once
+//@   assert[C05,C10] c.serv.cache.Call#1: err == nil && arg0 == c && arg1 == sub.resourceName && arg2 == sub.resourceQuery && arg3 == action && arg4 == c.token && arg5 == params && !arg6
+//@   safety[C15]
+//@ closure (*wsConn).call#2
+//@   requires c != nil
+//@   resolves[C07] cb exactly-once
+//@ closure (*wsConn).call#3
+//@   resolves[C07] cb exactly-once
+
+//@ func (*wsConn).CallResource
+//@   requires predConnOK(c)
+//@   assumes predSubsOK(c)
+//@   resolves[C07] cb exactly-once
+//@   safety[C15]
+//@ closure (*wsConn).CallResource#1
+//@   requires predConnOK(c)
+//@   resolves[C07] cb exactly-once
+
+//@ func (*wsConn).NewResource
+//@   requires predConnOK(c)
+//@   assumes predSubsOK(c)
+//@   resolves[C07] cb exactly-once
+//@   safety[C15]
+//@ closure (*wsConn).NewResource#1
+//@   requires predConnOK(c)
+//@   resolves[C07] cb exactly-once
+
+// auth: forwarded without an access check, with the connection's own id and current token.
+//@ func (*wsConn).AuthResource
+//@   requires predConnOK(c)
+//@   resolves[C07] cb exactly-once
+//@   assert[C05,C10] c.serv.cache.Auth#1: arg0 == c && arg3 == action && arg4 == c.token && arg5 == params && !arg6
+//@   safety[C15]
+//@ closure (*wsConn).AuthResource#1
+//@   requires predConnOK(c)
+//@   resolves[C07] cb exactly-once
+//@ closure (*wsConn).AuthResource#2
+//@   requires predConnOK(c)
+//@   resolves[C07] cb exactly-once
+
 // SpecOriginEq is the executable form of predOriginEq.
 func SpecOriginEq(s, o string) bool {
 	if len(s) != len(o) {
